@@ -382,7 +382,10 @@ impl<Leaf: MerkleLeaf, Root: MerkleRoot, Proof: MerkleProof> MerkleTree<Leaf, Ro
     /// to the given `hash` at the given `index` in the tree corresponding to the given `root`.
     #[must_use]
     fn check_hash_proof(hash: Hash, index: usize, root: &Root, proof: &Proof) -> bool {
+        // NOTE: Also makes sure `index` lies within the width implied by the proof length.
+        // Otherwise, all indices equal to `index` modulo `2^len` would verify as well.
         proof.as_ref().len() <= EMPTY_ROOTS.len()
+            && index.checked_shr(proof.as_ref().len() as u32).unwrap_or(0) == 0
             && *Self::derive_hash_root(hash, index, proof).as_hash() == *root.as_hash()
     }
 
@@ -446,6 +449,11 @@ impl<Leaf: MerkleLeaf, Root: MerkleRoot, Proof: MerkleProof> MerkleTree<Leaf, Ro
                 _ => Self::hash_pair(h, &node),
             };
             i /= 2;
+        }
+        // index has to lie within the width implied by the proof length,
+        // otherwise all indices equal to `index` modulo `2^len` would verify as well
+        if i != 0 {
+            return None;
         }
         Some(node.into())
     }
